@@ -223,3 +223,15 @@ func Harness_C07_marshal_parse() {
 	rest, _ := io.ReadAll(payload)
 	V.Assert(bytes.Equal(rest, tail), "payload changed in a marshal/parse round trip")
 }
+
+// Harness_b64_roundtrip: DecodeString(EncodeToString(x)) == x (engine self-test
+// and a lemma used by the age-level harnesses).
+func Harness_b64_roundtrip() {
+	n := V.Int("n", 0, V.Param("maxn", 33))
+	x := V.Bytes("x", n)
+	s := EncodeToString(x)
+	y, err := DecodeString(s)
+	V.Assert(err == nil, "encoded string does not decode")
+	V.Assert(bytes.Equal(x, y), "base64 round trip changed the bytes")
+	V.Reach("done")
+}
